@@ -138,3 +138,13 @@ Definition ev_table (L : nat) (e : edge) : list (option Z) :=
   map (ev_eval L e) (all_asg sz L).
 
 End Sized.
+
+(** ** element-wise operations on EV+ edges: the canonical edge of the
+    pointwise combination (the scalar function [f] is e.g. [Scalar.ev_scalar2 o]) *)
+Definition ev_apply2 (sz : nat -> nat) (fr : bool) (L : nat)
+           (f : option Z -> option Z -> option Z) (e1 e2 : edge) : edge :=
+  ev_of_fun sz fr L (fun x => f (ev_eval L e1 x) (ev_eval L e2 x)) (fun _ => 0).
+
+Definition ev_apply1 (sz : nat -> nat) (fr : bool) (L : nat)
+           (f : option Z -> option Z) (e : edge) : edge :=
+  ev_of_fun sz fr L (fun x => f (ev_eval L e x)) (fun _ => 0).
